@@ -1577,7 +1577,28 @@ func main() {
 	outJSON := flag.String("json", "", "output JSON description")
 	outGo := flag.String("go", "", "output Go registry for the harness")
 	outFoot := flag.String("footprint", "", "output Coq file with the global-variable footprint of every function")
+	outLocks := flag.String("locks", "", "output Coq file with the lock skeletons of the checksum-service registry")
 	flag.Parse()
+	if *outLocks != "" {
+		// independent of the rest: a registry outside the grammar breaks only the C19 obligation
+		func() {
+			defer func() {
+				if r := recover(); r != nil {
+					os.Remove(*outLocks)
+					if te, ok := r.(terr); ok {
+						where := ""
+						if te.pos != token.NoPos {
+							where = fset.Position(te.pos).String() + ": "
+						}
+						fmt.Fprintf(os.Stderr, "LOCKS-ERROR %s%s\n", where, te.msg)
+						return
+					}
+					panic(r)
+				}
+			}()
+			writeLocks(*root, *outLocks)
+		}()
+	}
 	defer func() {
 		if r := recover(); r != nil {
 			if te, ok := r.(terr); ok {
